@@ -17,7 +17,7 @@
 // parties of the coin flip hold the same coin, the imported Rabin key verifies the owner's signature ...).
 // Every accepted transcript is hashed; distinct_nontrivial = number of distinct accepted transcripts with >= 1 line.
 #include "c03_protocols.hh"
-#include <sys/prctl.h>
+#include "c03_bigalloc.hh"
 using namespace drv;
 using namespace c3;
 
@@ -26,7 +26,6 @@ int main(int argc, char **argv)
 	Args A = parse(argc, argv);
 	Report R(A);
 	if (!init_libTMCG()) return 2;
-	prctl(PR_SET_THP_DISABLE, 1, 0, 0, 0);   // the library allocates 670 MB line buffers per stack secret read; do not let the kernel zero huge pages for them
 	MuteCerr mute;
 	std::string fam = A.get("family", "");
 	std::vector<Spec> S;
